@@ -13,6 +13,7 @@ import (
 func init() {
 	vpRegister("vpH_C09_frame", vpH_C09_frame)
 	vpRegister("vpH_C09_reentrant", vpH_C09_reentrant)
+	vpRegister("vpH_C09_bigframe", vpH_C09_bigframe)
 }
 
 type vpTermRef struct{ field, term string }
@@ -250,4 +251,98 @@ func vpH_C09_reentrant() {
 	vpMust(err, "VisitStoredFields (re-entered)")
 	vpAssert(bytes.Equal(solo, nested), "re-entered stored-field visit observes what it observes alone")
 	vpReach("C09 reentrant end")
+}
+
+// vpBigReadOp: read operations that cross the 1024-document doc-value chunk
+// and the 128-document stored block boundaries of a large segment.
+var vpBigReadOpNames = []string{"DocumentValueReader across chunks", "VisitStoredFields across blocks", "PostingsList+Advance across chunks", "merge-input (large)"}
+
+func vpBigReadOp(k int, seg *Segment) []byte {
+	var dig []byte
+	switch k {
+	case 0:
+		r, err := seg.DocumentValueReader([]string{"b"})
+		vpMust(err, "DocumentValueReader")
+		for _, n := range []uint64{2, 1026, 3, 1027, 1026, 0} {
+			err := r.VisitDocumentValues(n, func(field string, term []byte) {
+				dig = append(dig, field...)
+				dig = append(dig, term...)
+			})
+			vpMust(err, "VisitDocumentValues")
+		}
+	case 1:
+		for _, n := range []uint64{0, 127, 128, 1029, 1} {
+			err := seg.VisitStoredFields(n, func(field string, value []byte) bool {
+				dig = append(dig, value...)
+				return true
+			})
+			vpMust(err, "VisitStoredFields")
+		}
+	case 2:
+		d, err := seg.Dictionary("b")
+		vpMust(err, "Dictionary")
+		pl, err := d.PostingsList([]byte("all"), nil, nil)
+		vpMust(err, "PostingsList")
+		it, err := pl.Iterator(true, true, true, nil)
+		vpMust(err, "Iterator")
+		for _, t := range []uint64{1, 600, 1025} {
+			p, err := it.Advance(t)
+			vpMust(err, "Advance")
+			if p != nil {
+				dig = append(dig, byte(p.Number()), byte(p.Number()>>8), byte(p.Frequency()))
+			}
+		}
+	case 3:
+		var buf bytes.Buffer
+		dr := roaring.New()
+		dr.Add(0)
+		_, _, err := mergeSegmentBasesWriter([]*Segment{seg}, []*roaring.Bitmap{dr}, &buf, 1025, nil)
+		vpMust(err, "merge")
+		dig = append(dig, byte(buf.Len()), byte(buf.Len()>>8))
+	}
+	return dig
+}
+
+// C09, frame condition on a segment of 1030 documents (two doc-value chunks,
+// nine stored blocks, a postings list with two chunks): as vpH_C09_frame.
+func vpH_C09_bigframe() {
+	var docs []*vpDoc
+	for d := 0; d < 1030; d++ {
+		f := &vpField{name: "b", dv: true, store: true, value: []byte{byte('A' + d%26)}, length: 1 + d%3,
+			terms: []*vpTerm{{term: []byte("all"), freq: 1 + d%2}, {term: []byte{'t', byte('a' + d%7)}, freq: 1}}}
+		docs = append(docs, &vpDoc{fields: []*vpField{f}})
+	}
+	seg := vpBuild(docs, 1025)
+	if vpChoice("loaded", 2) == 1 {
+		seg = vpLoad(vpPersist(seg))
+	}
+	if vpChoice("warm", 2) == 1 {
+		vpBigReadOp(0, seg)
+	}
+	k := vpChoice("op", len(vpBigReadOpNames))
+	vpNote("op:" + vpBigReadOpNames[k])
+	if vpSymbolic() {
+		vpWriteSetBegin([]interface{}{seg})
+		solo := vpBigReadOp(k, seg)
+		again := vpBigReadOp(k, seg)
+		writes := vpWriteSetEnd()
+		vpAssert(bytes.Equal(solo, again), "repeated read observes the same")
+		for _, w := range writes {
+			vpNote("write:" + w)
+		}
+		if len(writes) > 0 {
+			vpAssert(false, "frame: unsynchronised write to shared segment state by "+vpBigReadOpNames[k])
+		}
+	} else {
+		ref := vpLoad(vpPersist(seg))
+		solo := vpBigReadOp(k, ref)
+		var wg sync.WaitGroup
+		var r1, r2 []byte
+		wg.Add(2)
+		go func() { defer wg.Done(); r1 = vpBigReadOp(k, seg) }()
+		go func() { defer wg.Done(); r2 = vpBigReadOp(k, seg) }()
+		wg.Wait()
+		vpAssert(bytes.Equal(solo, r1) && bytes.Equal(solo, r2), "concurrent readers observe what they observe alone")
+	}
+	vpReach("C09 bigframe end")
 }
